@@ -2,6 +2,7 @@ package transcode
 
 import (
 	"fmt"
+	"strconv"
 	"strings"
 
 	"google.golang.org/protobuf/proto"
@@ -61,43 +62,82 @@ func execC07(e *env, c *Case) (o outcome) {
 		o.inconcl = "bad case: reference rejects the capture: " + err.Error()
 		return
 	}
+	var whole proto.Message
+	if c.Whole {
+		if whole, err = decodeMsg(c.Rule.In, c.Msg); err != nil {
+			o.inconcl = "bad case: " + err.Error()
+			return
+		}
+	}
+	reps := c.Repeat
+	if reps < 1 {
+		reps = 1
+	}
+	o.evals = -1
+	for rep := 0; rep < reps; rep++ {
+		o.evals++
+		// query parameters are applied in map-iteration order: the same
+		// request is served several times
+		if !c07Once(e, c, &o, md, fds, exp, whole) {
+			return
+		}
+	}
+	return
+}
+
+func queryLabel(q string) string {
+	if len(q) > 300 {
+		return q[:300] + fmt.Sprintf("...(%d bytes)", len(q))
+	}
+	return q
+}
+
+func c07Once(e *env, c *Case, o *outcome, md protoreflect.MessageDescriptor, fds []protoreflect.FieldDescriptor, exp, whole proto.Message) bool {
 	resp, calls := serve(e, c.Req)
 	if resp.Wedged {
 		o.inconcl = "request did not return within the watchdog"
-		return
+		return false
 	}
 	if resp.Panic != nil {
 		o.count("c07_panics_left_to_C09")
 		o.count("left_to_C09:" + resp.Panic.Key())
-		return
+		return false
 	}
 	if len(calls) == 0 {
 		if resp.Code >= 400 {
 			o.count("c07_conflicting_request_rejected_(allowed)")
 		} else {
-			o.add("c07:no-handler-no-error:"+c.Class, fmt.Sprintf("%s %s?%s answered %d without reaching the handler", c.Req.Verb, c.Req.Path, c.Req.RawQuery, resp.Code))
+			o.add("c07:no-handler-no-error:"+c.Class, fmt.Sprintf("%s %s?%s answered %d without reaching the handler", c.Req.Verb, c.Req.Path, queryLabel(c.Req.RawQuery), resp.Code))
 		}
-		return
+		return false
 	}
 	got := project(calls[0].msg, fds)
-	if proto.Equal(got, exp) {
-		o.distinct = "c07|" + c.Rule.ID + "|" + c.Field + "|" + c.Via
-		return
-	}
-	by := "other"
-	for _, ch := range []string{"query", "query2", "body"} {
-		t, ok := c.Compete[ch]
-		if !ok {
-			continue
+	if !proto.Equal(got, exp) {
+		by := "other"
+		if proto.Equal(got, project(vschema.NewMsg(md), fds)) {
+			by = "none(capture-lost)"
 		}
-		if m, err := onlyField(md, fds, t); err == nil && proto.Equal(got, m) {
-			by = strings.TrimSuffix(ch, "2")
-			break
+		for _, ch := range []string{"query", "query2", "body"} {
+			t, ok := c.Compete[ch]
+			if !ok {
+				continue
+			}
+			if m, err := onlyField(md, fds, t); err == nil && proto.Equal(got, m) {
+				by = strings.TrimSuffix(ch, "2")
+				break
+			}
 		}
+		o.add("c07:path-bound-overridden:by="+by, fmt.Sprintf("rule %s %s body=%q: %s %s?%s (competing %s): path-bound field %s was captured as %q but the handler received %s (whole message: %s)",
+			c.Rule.Verb, c.Rule.Tmpl, c.Rule.Body, c.Req.Verb, c.Req.Path, queryLabel(c.Req.RawQuery), c.Via, c.Field, c.Text, jsonOf(got), jsonOf(calls[0].msg)))
+		return false
 	}
-	o.add("c07:path-bound-overridden:by="+by, fmt.Sprintf("rule %s %s body=%q: %s %s?%s (competing %s): path-bound field %s was captured as %q but the handler received %s",
-		c.Rule.Verb, c.Rule.Tmpl, c.Rule.Body, c.Req.Verb, c.Req.Path, c.Req.RawQuery, c.Via, c.Field, c.Text, jsonOf(got)))
-	return
+	if whole != nil && !proto.Equal(calls[0].msg, whole) {
+		o.add("c07:sent-field-not-delivered:"+c.Extra, fmt.Sprintf("rule %s %s body=%q: %s %s?%s (%s): the path-bound field %s kept its capture %q, but the other parameters did not arrive where they were sent: %s",
+			c.Rule.Verb, c.Rule.Tmpl, c.Rule.Body, c.Req.Verb, c.Req.Path, queryLabel(c.Req.RawQuery), c.Via, c.Field, c.Text, diffFields(whole, calls[0].msg)))
+		return false
+	}
+	o.distinct = "c07|" + c.Rule.ID + "|" + c.Field + "|" + c.Via
+	return true
 }
 
 var (
@@ -144,7 +184,56 @@ func keyOf(fds []protoreflect.FieldDescriptor, json bool) string {
 	return strings.Join(parts, ".")
 }
 
-func (g *gen) c07Case(p *plan, v pathVar, idx int, qv, bv string) (*Case, error) {
+// c07Extra adds parameters that do not compete for the bound field.
+type c07Extra struct {
+	siblings int    // 1..3 query params on same-typed sibling sub-messages
+	sibPos   string // before | after (the competing key)
+	many     int    // this many elements of a repeated query field
+}
+
+// siblingLeaves lists the query-expressible leaves that live in a message of
+// the same type and at the same depth as the variable's field, but under
+// another field (vf.Req: sub / osub; ComplexRequest: nested / oneof_nested).
+func siblingLeaves(p *plan, v pathVar) []leaf {
+	if len(v.fds) < 2 {
+		return nil
+	}
+	var same, others []leaf
+	vfd := v.fds[len(v.fds)-1]
+	for _, lf := range urlLeaves(p.in, 3) {
+		if len(lf.fds) != len(v.fds) || lf.fd().ContainingMessage().FullName() != vfd.ContainingMessage().FullName() {
+			continue
+		}
+		if protoPath(lf.fds[:len(lf.fds)-1]) == protoPath(v.fds[:len(v.fds)-1]) {
+			continue // same parent: not a sibling sub-message
+		}
+		if p.isPathVar(lf.path()) || sameOneofAsVar(p, lf) || channelOf(p, lf.path(), bodyEnc{}) != "query" && p.rule.Body != "*" {
+			continue
+		}
+		if lf.fd().Name() == vfd.Name() {
+			same = append(same, lf)
+		} else {
+			others = append(others, lf)
+		}
+	}
+	return append(same, others...)
+}
+
+// manyLeaf finds a repeated string field that travels in the query string.
+func manyLeaf(p *plan) (leaf, bool) {
+	for _, lf := range urlLeaves(p.in, 2) {
+		fd := lf.fd()
+		if !fd.IsList() || fd.Kind() != protoreflect.StringKind || p.isPathVar(lf.path()) || sameOneofAsVar(p, lf) {
+			continue
+		}
+		if channelOf(p, lf.path(), bodyEnc{}) == "query" || p.rule.Body == "*" {
+			return lf, true
+		}
+	}
+	return leaf{}, false
+}
+
+func (g *gen) c07Case(p *plan, v pathVar, idx int, qv, bv string, ex c07Extra) (*Case, error) {
 	base := vschema.NewMsg(p.in)
 	texts, err := p.fit(g.rng, base, idx)
 	if err != nil {
@@ -208,6 +297,86 @@ func (g *gen) c07Case(p *plan, v pathVar, idx int, qv, bv string) (*Case, error)
 			}
 		}
 	}
+	// parameters that do not compete for the bound field
+	expected := cloneMsg(base)
+	var extras []kv
+	if ex.siblings > 0 {
+		sibs := siblingLeaves(p, v)
+		if len(sibs) == 0 {
+			return nil, nil
+		}
+		for i := 0; i < ex.siblings; i++ {
+			lf := sibs[(i*(1+g.n%3)+i)%len(sibs)]
+			if i == 0 {
+				lf = sibs[0] // the sibling's field of the same name, when there is one
+			}
+			dup := false
+			for _, e := range extras {
+				if e.k == keyOf(lf.fds, false) || e.k == keyOf(lf.fds, true) {
+					dup = true
+				}
+			}
+			if dup && !lf.fd().IsList() {
+				continue
+			}
+			tmp := vschema.NewMsg(lf.fd().ContainingMessage()).ProtoReflect()
+			setLeaf(tmp, lf.fd(), idx+i+1, g.rng)
+			ts, err := canonTexts(tmp, lf.fd(), false)
+			if err != nil || len(ts) == 0 {
+				continue
+			}
+			t := ts[0]
+			if lf.fd().Kind() == protoreflect.StringKind {
+				t = fmt.Sprintf("sibling-%d", i)
+			}
+			if lf.fd().Message() != nil && !canonicalFor(lf.fds, t) {
+				continue
+			}
+			if err := textref.Apply(expected.ProtoReflect(), lf.fds, t); err != nil {
+				return nil, err
+			}
+			extras = append(extras, kv{keyOf(lf.fds, (g.n+i)%2 == 0), t})
+		}
+		if len(extras) == 0 {
+			return nil, nil
+		}
+		c.Extra = "sibling-params"
+	}
+	if ex.many > 0 {
+		lf, ok := manyLeaf(p)
+		if !ok {
+			return nil, nil
+		}
+		cur := expected.ProtoReflect()
+		for _, fd := range lf.fds[:len(lf.fds)-1] {
+			cur = cur.Mutable(fd).Message()
+		}
+		l := cur.Mutable(lf.fd()).List()
+		key := keyOf(lf.fds, g.n%2 == 0)
+		for i := 0; i < ex.many; i++ {
+			t := "e" + strconv.Itoa(i)
+			l.Append(protoreflect.ValueOfString(t))
+			extras = append(extras, kv{key, t})
+		}
+		c.Extra = "many-params"
+	}
+	if len(extras) > 0 {
+		if ex.sibPos == "after" {
+			query = append(query, extras...)
+		} else {
+			query = append(extras, query...)
+		}
+		// with body "*" the google.api.http mapping has no query parameters:
+		// only the bound field is checked there
+		if p.rule.Body != "*" {
+			wireE, err := proto.Marshal(expected)
+			if err != nil {
+				return nil, err
+			}
+			c.Whole, c.Msg, c.MsgJSON = true, wireE, jsonOf(expected)
+		}
+		c.Repeat = 4
+	}
 	q.RawQuery = encodeQuery(query)
 	if bv != "none" {
 		inBody := p.rule.Body == "*" || (p.body != nil && strings.HasPrefix(v.field, p.bodyPath()+"."))
@@ -243,11 +412,17 @@ func (g *gen) c07Case(p *plan, v pathVar, idx int, qv, bv string) (*Case, error)
 	g.n++
 	c.Req = q
 	c.Via = "query=" + qv + ",body=" + bv
+	if ex.siblings > 0 {
+		c.Via += fmt.Sprintf(",siblings=%d-%s", len(extras), ex.sibPos)
+	}
+	if ex.many > 0 {
+		c.Via += fmt.Sprintf(",list-elements=%d", ex.many)
+	}
 	c.Class = p.rule.bodyShape() + ":" + c.Via
 	return c, nil
 }
 
-const ruleC07 = "every rule of the C03 catalogue with at least one path variable (vf.Req, ComplexRequest and the real larking.testpb annotations incl. Files.UploadDownload; top-level, nested and doubly nested fields; typed, enum, oneof and well-known-type variables; body '*', body <field>, no body). For every variable and several captures: competing, different values for the same field through the query string (proto name, JSON name, the key twice, before / after another key) and / or the body (JSON, protobuf, gzip JSON; body '*' or a body field that contains the variable), all combinations. Oracle: the handler's value of the field equals the protojson value of the path capture; a request rejected with an error status is allowed. distinct = (rule, variable, query variant, body variant) of dispatched requests that kept the capture"
+const ruleC07 = "every rule of the C03 catalogue with at least one path variable (vf.Req, ComplexRequest and the real larking.testpb annotations incl. Files.UploadDownload; top-level, nested and doubly nested fields; typed, enum, oneof and well-known-type variables; body '*', body <field>, no body). For every variable and several captures: competing, different values for the same field through the query string (proto name, JSON name, the key twice, before / after another key) and / or the body (JSON, protobuf, gzip JSON; body '*' or a body field that contains the variable), all combinations. In addition, for every variable on a nested field: 1-3 query parameters on same-typed sibling sub-messages (vf.Req sub / osub, ComplexRequest nested / oneof_nested; the sibling's field of the same name first) before / after the competing key, x query x body competitors; and for every variable: a repeated query field of 10, 63, 64, 65, 200, 1000 elements next to the competitors. These requests are served 4 times each (query parameters are applied in map order). Oracle: the handler's value of the field equals the protojson value of the path capture, and - for the cases with non-competing parameters on rules without body '*' - the whole message equals the capture(s) plus every parameter the client sent; a request rejected with an error status is allowed. distinct = (rule, variable, query variant, body variant, sibling / list-size variant) of dispatched requests that kept the capture"
 
 // RunC07 is the path-bound-fields-are-authoritative check.
 func RunC07(r *mon.Run) {
@@ -268,7 +443,7 @@ func RunC07(r *mon.Run) {
 		return
 	}
 	nIdx := r.Pick(5, 60)
-	for _, rule := range append(append([]RuleSpec(nil), dyn...), real...) {
+	for ri, rule := range append(append([]RuleSpec(nil), dyn...), real...) {
 		p, err := newPlan(rule)
 		if err != nil {
 			r.Inconclusive("harness: " + err.Error())
@@ -278,7 +453,17 @@ func RunC07(r *mon.Run) {
 		if rule.Svc != "" {
 			e = envR
 		}
-		for _, v := range p.vars {
+		do := func(c *Case, err error) {
+			if err != nil {
+				r.Count("generator_rejected_case", 1)
+				r.Set("generator_reject_example", rule.ID+": "+err.Error())
+				return
+			}
+			if c != nil {
+				apply(r, c, execCase(e, c))
+			}
+		}
+		for vi, v := range p.vars {
 			for k := 0; k < nIdx; k++ {
 				idx := k * 5
 				if k >= 3 {
@@ -289,17 +474,33 @@ func RunC07(r *mon.Run) {
 						if qv == "none" && bv == "none" {
 							continue
 						}
-						c, err := g.c07Case(p, v, idx, qv, bv)
-						if err != nil {
-							r.Count("generator_rejected_case", 1)
-							r.Set("generator_reject_example", rule.ID+": "+err.Error())
-							continue
-						}
-						if c == nil {
-							continue
-						}
-						apply(r, c, execCase(e, c))
+						do(g.c07Case(p, v, idx, qv, bv, c07Extra{}))
 					}
+				}
+			}
+			// parameters on same-typed sibling sub-messages around the
+			// competitors (only variables on nested fields have siblings)
+			if len(siblingLeaves(p, v)) > 0 {
+				for _, qv := range []string{"none", "proto-name", "json-name"} {
+					for _, bv := range []string{"none", "json", "protobuf"} {
+						for n := 1; n <= 3; n++ {
+							for _, pos := range []string{"before", "after"} {
+								for k := 0; k < r.Pick(2, 12); k++ {
+									do(g.c07Case(p, v, 3+7*k+n, qv, bv, c07Extra{siblings: n, sibPos: pos}))
+								}
+							}
+						}
+					}
+				}
+			}
+			// many URL parameters next to the competitors
+			for si, n := range []int{10, 63, 64, 65, 200, 1000} {
+				if n == 1000 && !r.Thorough() && (ri+vi)%4 != 0 {
+					continue
+				}
+				for ci, comb := range [][2]string{{"proto-name", "none"}, {"none", "json"}, {"proto-name", "protobuf"}, {"none", "none"}} {
+					pos := []string{"before", "after"}[(si+ci)%2]
+					do(g.c07Case(p, v, 11+si, comb[0], comb[1], c07Extra{many: n, sibPos: pos}))
 				}
 			}
 		}
